@@ -204,12 +204,21 @@ Record state : Type := {
   s_dirty_level : N
 }.
 
+Definition set_heap_reg (s : state) h r : state :=
+  {| s_heap := h; s_reg := r; s_bufs := s_bufs s; s_cand := s_cand s; s_int := s_int s; s_kb := s_kb s;
+     s_up := s_up s; s_tb := s_tb s; s_dirty_level := s_dirty_level s |}.
+
 Definition init (file_backed : bool) : state :=
   {| s_heap := []; s_reg := []; s_bufs := [];
      s_cand := None; s_int := None; s_kb := None; s_up := None;
      s_tb := {| tb_tok := {| t_trie := 0; t_mut := 0; t_free := 0 |};
                 tb_dirty := false; tb_writer := false; tb_file := file_backed |};
      s_dirty_level := 0 |}.
+
+(* chewing_new2 after chewing_delete in the same process: the OWNED registry and the caller's
+   heap results are process-wide and survive; everything else is fresh *)
+Definition new_context (file_backed : bool) (s : state) : state :=
+  set_heap_reg (init file_backed) (s_heap s) (s_reg s).
 
 (* what CString::new failing (interior NUL) turns into, per getter *)
 Inductive nul_policy : Type := NulNull | NulEmpty | NulPanic.
